@@ -37,7 +37,8 @@ pub type CAttrs = BTreeMap<String, CVal>;
 #[derive(Clone, PartialEq, Eq, Debug, Default)]
 pub struct CNode {
     pub attrs: CAttrs,
-    /// in `iter_edges` order
+    /// as yielded by `iter_edges`, then sorted by sink (stable): the order in which the library
+    /// lists the edges of a node is not part of any property, a repeated sink is
     pub edges: Vec<(u32, CAttrs)>,
 }
 
@@ -96,6 +97,7 @@ pub fn cgraph_ids(graph: &Graph) -> CGraph {
         for (sink, e) in gn.iter_edges() {
             cn.edges.push((sink.index() as u32, attrs(graph, &e.attributes)));
         }
+        cn.edges.sort_by_key(|e| e.0);
         out.nodes.push(cn);
     }
     out
@@ -135,6 +137,7 @@ pub fn cgraph(graph: &Graph) -> CGraph {
             cn.edges
                 .push((sink.index() as u32, cattrs(graph, &e.attributes)));
         }
+        cn.edges.sort_by_key(|e| e.0);
         out.nodes.push(cn);
     }
     out
